@@ -27,10 +27,11 @@ out.append("| round | changes | missed at first |\n|---|---|---|\n")
 for k in sorted(per_round):
     out.append("| %d | %d | %d |\n" % (k, len(per_round[k]), len([r for r in per_round[k] if 'MISSED' in r[5] or 'NOT DETECTED' in r[5] or 'NOT JUDGED' in r[5]])))
 out.append("| all | %d | %d |\n\n" % (len(rows), len(missed)))
-out.append("**All %d but " + str(len(notjudged)) + " (" + ", ".join(notjudged) + ": not judged on purpose, see their rows) are detected by the quick tier now.** Every miss led to a wider workload or a stronger oracle, never to a\n"
+out.append("**All %d but NJCOUNT (NJLIST: not judged on purpose, see their rows) are detected by the quick tier now.** Every miss led to a wider workload or a stronger oracle, never to a\n"
 "special case for the change; after each strengthening the check was re-run on the unchanged tree (which several times\n"
 "exposed a mistake of the new workload itself, corrected before going on) and against the earlier seeds. The misses:\n\n"
 "| seeded change | property | needs to manifest | why it was missed / what was strengthened |\n|---|---|---|---|\n" % len(rows))
+out[-1] = out[-1].replace("NJCOUNT", str(len(notjudged))).replace("NJLIST", ", ".join(notjudged))
 for r in missed:
     out.append("| %s | %s | %s | %s |\n" % (r[1], r[2], r[3].replace('|', '/'), r[5].replace('|', '/')))
 out.append("\nThe full list:\n\n| seeded change | breaks | needs to manifest | caught by (quick) |\n|---|---|---|---|\n")
